@@ -332,8 +332,10 @@ def make_op(rng, tag, tfiles):
         elif r < 0.6:
             # options that carry values
             argv += ['--trans', 'filter_by_length', '--params',
-                     'filteroperator:%s' % rng.choice(['gt', 'lt']),
-                     'filtervalue:%d' % rng.randint(2, 5)]
+                     'filteroperator:%s' % rng.choice(['gt', 'lt'])] + \
+                (['filtervalue:%d' % rng.randint(20, 40), 'filteroperator:eq']
+                 if rng.random() < 0.5 else []) + \
+                ['filtervalue:%d' % rng.randint(2, 5)]
         r = rng.random()
         if r < 0.3:
             argv += ['--dest-opts', 'brackets_emptyroot']
